@@ -307,7 +307,8 @@ def run(ctx, prop):
         stats["failures"] += 1
         key = (f.major, cat)
         reported[key] += 1
-        if reported[key] > 1 or nrep >= 4:
+        reported[f.major] += 1
+        if reported[key] > 1 or reported[f.major] > 2 or nrep >= 8:      # at most two replays per container: a second defect elsewhere is not crowded out
             continue
         nrep += 1
         ctx.violation("%s-foreign-%s-%s" % (prop.lower(), name, cat),
